@@ -116,6 +116,9 @@ func oracleC02(op string, args []string) string {
 	if !ok {
 		return skip
 	}
+	if staleBody(body) {
+		return skip // well-formedness clause of the property: declared length equals content length
+	}
 	if fam != "msg" {
 		// well-formedness clause of the property: the header view equals the body's own header octets
 		var bh []byte
@@ -678,4 +681,34 @@ func encodeOther() {
 		_, _ = other.PlainNasEncode()
 		_, _ = other.PlainNasEncode()
 	}
+}
+
+// staleBody: some buffer-backed element of the message body declares a length other than the length of its contents
+func staleBody(body reflect.Value) bool {
+	for body.Kind() == reflect.Ptr {
+		if body.IsNil() {
+			return false
+		}
+		body = body.Elem()
+	}
+	if body.Kind() != reflect.Struct {
+		return false
+	}
+	for i := 0; i < body.NumField(); i++ {
+		f := body.Field(i)
+		if f.Kind() == reflect.Ptr {
+			if f.IsNil() {
+				continue
+			}
+			f = f.Elem()
+		}
+		if f.Kind() != reflect.Struct {
+			continue
+		}
+		l, b := f.FieldByName("Len"), f.FieldByName("Buffer")
+		if l.IsValid() && b.IsValid() && b.Kind() == reflect.Slice && int(l.Uint()) != b.Len() {
+			return true
+		}
+	}
+	return false
 }
